@@ -490,8 +490,51 @@ class H:
 
 
     @staticmethod
+    def _after_view(e):
+        """the projection after the event: obs.view of a replica event, v2 of a ptrans / diff event"""
+        return {tuple(o['id']): o for o in ((e.get('obs') or {}).get('view') or e.get('v2') or [])}
+
+    @staticmethod
+    def remote_batch(e):
+        """changes of other replicas applied in one call (delivery, merge, or the sync session of a ptrans probe)"""
+        return e.get('ev') in ('deliver', 'merge') or (e.get('ev') == 'ptrans' and e.get('kind') == 'sync-receive')
+
+    @staticmethod
+    def put_patch_counter_stale(e):
+        """a Put patch of a remote batch carries a counter value other than the value that counter has afterwards
+        (increments of the same batch are missing from it)"""
+        for p in e.get('patches') or []:
+            if p.get('act') in ('PutSeq', 'PutMap') and (p.get('val') or {}).get('k') == 'counter':
+                r = H._reg_after(e, p)
+                for v in (r or {}).get('vals', []):
+                    if v['id'] == p.get('id') and v['v'].get('k') == 'counter' and v['v'].get('n') != p['val'].get('n'):
+                        return True
+        return False
+
+    @staticmethod
+    def insert_patch_misplaced(e):
+        """the values of some Insert patch do not stand at index, index+1, ... in the document afterwards (separate
+        inserts of one batch coalesced into one patch, or a later insert logged with an unadjusted index)"""
+        view = H._after_view(e)
+        for p in e.get('patches') or []:
+            if p.get('act') != 'Insert' or not p.get('values'):
+                continue
+            o = view.get(tuple(p['obj']))
+            if not o:
+                continue
+            regs = o.get('elems') or o.get('units') or []
+            pos = {}
+            for i, r in enumerate(regs):
+                for v in r.get('vals', []):
+                    pos[tuple(v['id'])] = i
+            idx = [pos.get(tuple(v['id'])) for v in p['values']]
+            if all(x is not None for x in idx) and idx != list(range(p['index'], p['index'] + len(idx))):
+                return True
+        return False
+
+    @staticmethod
     def _reg_after(e, p):
-        view = {tuple(o['id']): o for o in (e.get('obs') or {}).get('view') or []}
+        view = H._after_view(e)
         o = view.get(tuple(p['obj']))
         if not o:
             return None
@@ -509,7 +552,7 @@ class H:
         """a remote batch increments the list element at index i and inserts right after it: the Insert patch is
         logged with index i although the new element stands at i + 1 afterwards"""
         ps = e.get('patches') or []
-        view = {tuple(o['id']): o for o in (e.get('obs') or {}).get('view') or []}
+        view = H._after_view(e)
         for a, p1 in enumerate(ps):
             if p1.get('act') != 'Increment' or p1.get('iskey'):
                 continue
@@ -538,10 +581,13 @@ class H:
         afterwards (the other value was deleted in the same batch): only the Increment patch is logged"""
         sc, idx, e = c.get('scenario') or [], c.get('index', -1), c.get('event') or {}
         before = None
-        for p in reversed(sc[:idx]):
-            if p.get('r') == e.get('r') and 'view' in (p.get('obs') or {}):
-                before = p
-                break
+        if 'v1' in e:
+            before = {'v2': e['v1']}
+        else:
+            for p in reversed(sc[:idx]):
+                if p.get('r') == e.get('r') and 'view' in (p.get('obs') or {}):
+                    before = p
+                    break
         if before is None:
             return False
         for p in e.get('patches') or []:
